@@ -178,9 +178,15 @@ def run(p):
     # (c) covariance rotation
     for _ in range(p.n(1500, 60000)):
         v, kind = psd(rng)
+        if rng.random() < 0.06:
+            # an integer-typed matrix (A Aᵀ of small integers): same numbers, other dtype
+            a_ = np.array([[rng.randrange(-4, 5) for _ in range(3)] for _ in range(3)], dtype=np.int64)
+            v, kind = a_ @ a_.T, 'int'
+            if not v.any():
+                v = np.eye(3, dtype=np.int64)
         lat, lon = latlon(rng)
         inp = [v.tolist(), lat, lon]
-        lam = np.linalg.eigvalsh(v)
+        lam = np.linalg.eigvalsh(v.astype(float))
         lmax = float(lam[-1])
         R = np.asarray(ST.rotation_matrix(lat, lon), dtype=float)
         for fn, inv, expf in ((ST.vcv_cart2local, ST.vcv_local2cart, lambda m: R.T @ m @ R),
@@ -215,8 +221,16 @@ def run(p):
         col = np.array([[rng.uniform(0, 1) * 10 ** rng.uniform(-8, 0)] for _ in range(3)])
         if rng.random() < 0.2:
             col[rng.randrange(3), 0] = 0.0
+        dt_ = rng.random()
+        if dt_ < 0.12:
+            # variances held in an integer array (e.g. mm² read from a file) or in single precision: same numbers, other dtype
+            col = np.array([[rng.randrange(0, 12)] for _ in range(3)], dtype=rng.choice([np.int64, np.int32]))
+            if not col.any():
+                col[0, 0] = 3
+        elif dt_ < 0.18:
+            col = col.astype(np.float32)
         lat, lon = latlon(rng)
-        inp = [col.tolist(), lat, lon]
+        inp = [col.tolist(), lat, lon, str(col.dtype)]
         R = np.asarray(ST.rotation_matrix(lat, lon), dtype=float)
         for fn, expf in ((ST.vcv_cart2local, lambda m: R.T @ m @ R), (ST.vcv_local2cart, lambda m: R @ m @ R.T)):
             call = f'{fn.__name__}(np.array({col.tolist()!r}), {lat!r}, {lon!r})'
@@ -224,11 +238,11 @@ def run(p):
             if not ok:
                 continue
             p.case('vcv_3x1', inp + [fn.__name__])
-            exp = np.diag(expf(np.diag(col[:, 0]))).reshape(3, 1)
+            exp = np.diag(expf(np.diag(col[:, 0].astype(float)))).reshape(3, 1)
             w = np.asarray(w, dtype=float)
             okv = w.shape == (3, 1) and float(np.max(np.abs(w - exp))) <= 1e-9 * float(np.max(col))
             p.check(okv, 'vcv:3x1', 'vcv_3x1', inp + [fn.__name__], w.tolist(), exp.tolist(), call)
-            full = np.asarray(fn(np.diag(col[:, 0]), lat, lon), dtype=float)
+            full = np.asarray(fn(np.diag(col[:, 0].astype(float)), lat, lon), dtype=float)
             p.check(w.shape == (3, 1) and float(np.max(np.abs(w[:, 0] - np.diag(full)))) <= 1e-9 * float(np.max(col)),
                     'vcv:3x1', 'vcv_3x1_vs_3x3', inp + [fn.__name__], w.tolist(), np.diag(full).tolist(), call)
     # other shapes are rejected with ValueError
